@@ -12,6 +12,7 @@ import (
 // both directions are compared with a sorted-map model.
 
 var c01Alpha = []string{"put:a", "put:b", "put:c", "del:a", "del:b", "putE:b", "putL:c", "b1", "b2", "cr", "crb", "q", "re"}
+var c01RichAlpha = []string{"put:a", "put:b", "put:c", "del:a", "del:b", "del:c", "w:-a,-c", "w:-b,+a", "cr", "crb", "q", "re"}
 var c01AlphaBig = append(append([]string{}, c01Alpha...), "big")
 
 // key sets under which each custom comparer orders keys differently from bytes.Compare
@@ -100,7 +101,18 @@ func init() {
 			layouts := map[string]int{}
 			perCfg := map[string]any{}
 			exh := true
-			for _, sp := range c01Specs(c.Tier) {
+			specs := c01Specs(c.Tier)
+			// second pass: continue the search from deep / tombstone-rich / multi-table layouts
+			rd, rmax, ext := 6, 8, 3
+			if c.Tier == "thorough" {
+				rd, rmax, ext = 7, 24, 4
+			}
+			for _, cfg := range []string{"mixed/bytewise", "deep/bytewise"} {
+				hs, feats := findRichHistories(c, pool, cfg, richAlpha, rd, rmax)
+				c.Coverage["layout_features_"+cfg] = feats
+				specs = append(specs, seqSpec{Cfg: cfg, Alpha: c01RichAlpha, Depth: ext, Checks: "db", Mode: "from-rich-states", Prefixes: hs})
+			}
+			for _, sp := range specs {
 				if !cfgSelected(sp.Cfg) {
 					continue
 				}
